@@ -90,7 +90,10 @@ func (r *URLRewriter) Rewrite(value *url.URL) {
 		func() string { return value.Scheme },
 	)
 
-	rawPath := r.transformPath(value.EscapedPath())
+	// a configured prefix may contain characters, which are not valid in an escaped path. These are encoded.
+	// Otherwise, the raw path would be ignored in favour of a new encoding of the decoded path, with
+	// the result of e.g. encoded slashes being forwarded as slashes.
+	rawPath := escapeInvalid(r.transformPath(value.EscapedPath()))
 	if len(value.RawPath) != 0 {
 		// if the original url path had url encoded parts
 		value.RawPath = rawPath
@@ -111,4 +114,29 @@ func (r *URLRewriter) transformPath(value string) string {
 
 func (r *URLRewriter) transformQuery(value string) string {
 	return r.QueryParamsToRemove.RemoveFrom(value)
+}
+
+func escapeInvalid(rawPath string) string {
+	const upperHex = "0123456789ABCDEF"
+
+	var sb strings.Builder
+
+	sb.Grow(len(rawPath))
+
+	for i := 0; i < len(rawPath); i++ {
+		char := rawPath[i]
+
+		switch {
+		case 'a' <= char && char <= 'z', 'A' <= char && char <= 'Z', '0' <= char && char <= '9',
+			// percent sign of an escape sequence, unreserved, sub-delims, and what else is allowed in a path
+			strings.IndexByte("%-._~!$&'()*+,;=:@/[]", char) >= 0:
+			sb.WriteByte(char)
+		default:
+			sb.WriteByte('%')
+			sb.WriteByte(upperHex[char>>4])  //nolint:mnd
+			sb.WriteByte(upperHex[char&0xf]) //nolint:mnd
+		}
+	}
+
+	return sb.String()
 }
